@@ -19,7 +19,7 @@ PROPS = {}
 NOT_APPLICABLE = {}
 # properties whose monitors have been validated (silent on the tree, sensitive to
 # seeded changes) and are therefore claimed in MANIFEST.json
-CLAIMED = ["C06", "C13"]
+CLAIMED = ["C06", "C12", "C13"]
 HOOK_COMMITS = ["09c5f91"]
 
 
